@@ -8,7 +8,7 @@ from symtrace.concrete import flat, lincomb_of
 from . import catalogue as CAT
 from . import common as C
 from .catjob import lookup, Job
-from .c01 import is_heavy
+from .c01 import is_heavy, is_very_heavy
 
 PID = "C02"
 
@@ -31,6 +31,8 @@ def jobs(tier):
             if not selected(e):
                 continue
             if is_heavy(e) and n > 4:
+                continue
+            if is_very_heavy(e) and tier == "quick":
                 continue          # secret exponents / shift counts: 2^n paths; decided at n = 4 only (stated bound)
             if n > 4 and ("arr" in e.tags or "comp" in e.tags):
                 continue
